@@ -175,6 +175,11 @@ func init() {
 					x, label := allNamesValue(caseGen(c, true, idx), idx)
 					docCase(c, x, label, newDocWriter(rand.New(rand.NewSource(int64(idx)))))
 				}},
+				{Name: "constructed", N: len(allConstructed), Exhaustive: true, Run: func(c *Ctx, idx int) {
+					cv := allConstructed[idx]
+					c.Count("constructed", 1)
+					docVariants(c, cv.Make(), "constructed "+cv.Label, newDocWriter(rand.New(rand.NewSource(int64(idx)))))
+				}},
 				{Name: "bare-embedded", N: len(bareCases), Exhaustive: true, Run: func(c *Ctx, idx int) {
 					bc := bareCases[idx]
 					inner, host := caseGen(c, true, idx).BuildBare(bc, false)
